@@ -4,7 +4,7 @@
    structure carries what the standard derives from them (7.3.2.1.1.1), incl. the not-present /
    use-default / explicit distinction. *)
 From H264 Require Import Base.Prelude Base.Bits Model.BitReader Model.Parser Model.Sps Spec.Golomb Spec.SyntaxSps
-     Proofs.Parses Proofs.SpsRoundtrip Proofs.SpsInv Proofs.Wp.
+     Proofs.Parses Proofs.SpsRoundtrip Proofs.SpsInv Proofs.Wp Proofs.SpsConverse Proofs.C14_proofs.
 Local Open Scope N_scope.
 
 (* every conforming SPS, encoded and followed by rbsp trailing bits (with any number of trailing
@@ -26,14 +26,29 @@ Theorem C04_body : forall x lists rest tl, wf_sps x lists ->
 Proof. intros x lists rest tl H. apply (parses_sps_body x lists H). Qed.
 Print Assumptions C04_body.
 
-(* converse, first half: every accepted bit string was consumed from the front (nothing skipped
-   backwards or re-read: the result's source is a suffix) and yields a value within the ranges *)
-Theorem C04_converse_partial : forall s v s', sps_body s = OK (v, s') -> inv_sps v /\ consumes s s'.
+(* converse: every bit string the structure parser accepts IS the encoding of the structure it returns (for some
+   coded scaling-list deltas - the only information the structure does not keep), followed by what it left
+   unread: nothing is skipped, re-read or read under another descriptor, and the returned value is in range *)
+Theorem C04_converse : forall s v s', sps_body s = OK (v, s') ->
+  (exists lists, bits s = enc_sps v lists ++ bits s' /\ tail s' = tail s) /\ inv_sps v.
 Proof.
-  intros s v s' H. pose proof (wp_sps_body s (fun v s' => inv_sps v /\ consumes s s') (fun v s' Hi Hc => conj Hi Hc)) as Hw.
-  rewrite H in Hw. exact Hw.
+  intros s v s' H. split; [exact (sps_body_converse s v s' H)|].
+  pose proof (wp_sps_body s (fun v s' => inv_sps v) (fun v s' Hi _ => Hi)) as Hw. rewrite H in Hw. exact Hw.
 Qed.
-Print Assumptions C04_converse_partial.
+Print Assumptions C04_converse.
+
+(* hence the accepted language of the whole parser is exactly: an encoding followed by rbsp trailing bits *)
+Theorem C04_accepted_language : forall bs v, sps_from_bits (mk_src bs TEof) = OK v ->
+  exists lists k, bs = enc_sps v lists ++ trailing_bits k.
+Proof.
+  intros bs v H. unfold sps_from_bits in H.
+  destruct (sps_body (mk_src bs TEof)) as [[v0 s']| | |] eqn:Eb; try discriminate.
+  destruct (sps_body_converse _ _ _ Eb) as (lists & Hbits & Ht). cbn [bits tail] in *.
+  destruct (finish_rbsp s') as [[]| | |] eqn:Ef; try discriminate. injection H as <-.
+  apply (finish_rbsp_ok_iff s' Ht) in Ef. destruct Ef as [k Hk].
+  exists lists, k. rewrite Hbits, Hk. reflexivity.
+Qed.
+Print Assumptions C04_accepted_language.
 
 (* non-vacuity: a High-profile SPS with VUI, HRD, cropping and a use-default scaling list *)
 Example C04_ex :
